@@ -91,3 +91,174 @@ func BuiltFields(fn *ssa.Function, named *types.Named) map[string]BuiltField {
 	}
 	return out
 }
+
+// ---------------------------------------------------------------------------
+// VisitsAll: the delegating calls selected by sel, made by fn (or by helpers /
+// function literals it uses), reach every element of the collection that is
+// fn's parameter `recv` (usually the receiver), whatever the earlier elements
+// returned. Accepted shapes, each with "no exit from the loop other than its
+// end":
+//   - one call inside a loop over the whole collection;
+//   - the first element handled before a loop over the rest (x[0], then x[1:]);
+//   - the loop lives in an eligible helper that receives the collection and a
+//     function value, and fn passes a function (literal, method value or
+//     method expression) that makes the delegating call on its argument.
+// Returns the call that sits in the loop (for error-fold checks) and its function.
+func VisitsAll(fn *ssa.Function, sel func(ssa.CallInstruction) bool, recv *ssa.Parameter) (ok bool, why string, loopCall *ssa.Call, loopFn *ssa.Function) {
+	var calls []*ssa.Call
+	for _, cl := range CallsDeep(fn) {
+		if c2, isCall := cl.(*ssa.Call); isCall && sel(cl) {
+			calls = append(calls, c2)
+		}
+	}
+	rn := recv.Name()
+	overOK := func(over string, f *ssa.Function) bool {
+		if over == rn {
+			return true
+		}
+		// the helper's own parameter that every call site binds to recv
+		for _, p := range f.Params {
+			if p.Name() == over && f != fn {
+				var d string
+				Bound(func() { d = Desc(p) })
+				return d == rn
+			}
+		}
+		return false
+	}
+	switch len(calls) {
+	case 1:
+		f := calls[0].Parent()
+		v, over, w := LoopVisitsAll(f, calls[0])
+		if !v {
+			return false, w, calls[0], f
+		}
+		if !overOK(over, f) {
+			return false, "the loop ranges over " + over + ", not over the whole of " + rn, calls[0], f
+		}
+		return true, "", calls[0], f
+	case 2:
+		var head, tail *ssa.Call
+		for _, cl := range calls {
+			if LoopHeader(cl.Block()) == nil {
+				head = cl
+			} else {
+				tail = cl
+			}
+		}
+		if head == nil || tail == nil || head.Parent() != tail.Parent() {
+			return false, "two delegating calls that are not a first-element call plus a loop over the rest", nil, nil
+		}
+		f := tail.Parent()
+		v, over, w := LoopVisitsAll(f, tail)
+		if !v {
+			return false, w, tail, f
+		}
+		hd := ""
+		if head.Call.IsInvoke() {
+			hd = Desc(head.Call.Value)
+		} else if len(head.Call.Args) > 0 {
+			hd = Desc(head.Call.Args[0])
+		}
+		if hd != rn+"[0]" || over != rn+"[1:]" {
+			return false, "first call on " + hd + " and loop over " + over + " do not cover " + rn, tail, f
+		}
+		if !Dominates(head, tail) {
+			return false, "the first-element call does not precede the loop on every path", tail, f
+		}
+		return true, "", tail, f
+	case 0:
+		// higher-order: fn hands a function to a helper that owns the loop
+		for _, cl := range Calls(fn) {
+			c2, isCall := cl.(*ssa.Call)
+			h := helperOf(cl)
+			if !isCall || h == nil {
+				continue
+			}
+			args := Args(c2)
+			for ai, a := range args {
+				if ai >= len(h.Params) {
+					break
+				}
+				var g *ssa.Function
+				switch x := Strip(a).(type) {
+				case *ssa.MakeClosure:
+					g, _ = x.Fn.(*ssa.Function)
+				case *ssa.Function:
+					g = x
+				}
+				if g == nil {
+					continue
+				}
+				delegates := false
+				for _, gc := range Calls(g) {
+					if sel(gc) {
+						delegates = true
+					}
+				}
+				if !delegates {
+					continue
+				}
+				// in h: the call through parameter ai, inside a loop over the parameter that receives recv
+				var dyn *ssa.Call
+				for _, hc := range Calls(h) {
+					if d, ok := hc.(*ssa.Call); ok && !d.Call.IsInvoke() && d.Call.Value == ssa.Value(h.Params[ai]) {
+						dyn = d
+					}
+				}
+				if dyn == nil {
+					continue
+				}
+				v, over, w := LoopVisitsAll(h, dyn)
+				if !v {
+					return false, w, dyn, h
+				}
+				passes := false
+				for pi, p := range h.Params {
+					if p.Name() == over && pi < len(args) && Strip(args[pi]) == ssa.Value(recv) {
+						passes = true
+					}
+				}
+				if !passes {
+					return false, "the helper " + h.Name() + " loops over " + over + ", which is not " + rn, dyn, h
+				}
+				return true, "", dyn, h
+			}
+		}
+		return false, "no delegating call found", nil, nil
+	}
+	return false, "unexpected number of delegating calls", nil, nil
+}
+
+// ConfigOptionGuards: the guard set (helper-transparent, in buildOptions' terms) under which Config.buildOptions
+// installs the option built by the call to zap.<option>; ok=false when there is no such call.
+func ConfigOptionGuards(c *Ctx, option string) (guards []string, pos token.Pos, ok bool) {
+	bo := c.Method(ZapPath, "Config", "buildOptions")
+	if bo == nil {
+		return nil, token.NoPos, false
+	}
+	for _, cl := range CallsDeep(bo) {
+		if IsCallTo(cl, ZapPath+"."+option) {
+			Bound(func() {
+				guards = append(guards, AtomStrings(Guards(cl))...)
+			})
+			// what already holds wherever buildOptions is called (a successfully validated Config) is not a condition of this option
+			pre := map[string]bool{}
+			for _, site := range sitesOf(bo) {
+				Bound(func() {
+					for _, a := range AtomStrings(Guards(site)) {
+						pre[a] = true
+					}
+				})
+			}
+			var own []string
+			for _, g := range guards {
+				if !pre[g] {
+					own = append(own, g)
+				}
+			}
+			return uniqSorted(own), cl.Pos(), true
+		}
+	}
+	return nil, bo.Pos(), false
+}
